@@ -427,7 +427,7 @@ def write_evidence(mod, tier, seed, merged: Merged, wall, n_roots, n_unknown, kn
         roots=n_roots,
         max_depth=merged.max_depth,
         distinct_outcomes=len(merged.outcomes),
-        bound=jsonable(mod.bound(tier, seed)),
+        bound=jsonable(dict(mod.bound(tier, seed), **({"size_family": mod.LARGE.get(tier) if isinstance(mod.LARGE, dict) and tier in mod.LARGE else mod.LARGE} if hasattr(mod, "LARGE") else {}))),
         clauses={k: dict(evaluated=v[0], violated=v[1]) for k, v in sorted(merged.clauses.items())},
         known_findings_reobserved=sorted(known_hits),
         counters=dict(merged.extra),
